@@ -1053,3 +1053,103 @@ def phase_verbnames(ctx, phase):
     ctx.replay_stats["nontrivial"] = ctx.replay_stats.get("nontrivial", 0) + len(recs)
     ctx.tlc_runs.append(dict(profile="verb-names", states=0, distinct=0, configurations=len(recs), mode="TLC enumerates configurations, then judges the recorded outcomes"))
     return d
+
+
+def _argspace_exec(args):
+    """worker: slice_head chains and unions of MC_ArgSpace on the real code (Polars and SQLite)"""
+    ucols, sizes, cfgs = args
+    import polars as pl
+    import pydiverse.transform as pdt
+    import sqlalchemy as sqa
+    from pydiverse.transform import alias, arrange, export, select, slice_head, union
+
+    eng = sqa.create_engine("sqlite://", poolclass=sqa.pool.StaticPool)
+    frames = {}
+    for z in sizes:
+        frames[("s", z)] = pl.DataFrame({"rid": list(range(1, z + 1))}, schema={"rid": pl.Int64})
+        frames[("s", z)].write_database(f"s{z}", eng, if_table_exists="replace")
+    for side, nm in ((1, "ul"), (2, "ur")):
+        frames[nm] = pl.DataFrame({n: [10 * (j + 1) + side] for j, n in enumerate(ucols)})
+        frames[nm].write_database(nm, eng, if_table_exists="replace")
+
+    def tbl(bk, key, name):
+        return pdt.Table(frames[key], name=name) if bk == "polars" else pdt.Table(name, pdt.SqlAlchemy(eng), name=name)
+
+    out = []
+    for c in cfgs:
+        for bk in ("polars", "sqlite"):
+            rec = dict(c=c, backend=bk, out=[], names=[], err="")
+            try:
+                if c["verb"] == "slices":
+                    t = tbl(bk, ("s", c["size"]), f"s{c['size']}")
+                    r = t >> arrange(t.rid)
+                    for q, (n, k) in enumerate(c["args"]):
+                        if q > 0 and c["alias"]:
+                            r = r >> alias()
+                        r = r >> slice_head(n, offset=k)
+                    rec["out"] = (r >> export(pdt.Polars()))["rid"].to_list()
+                else:
+                    lt, rt = tbl(bk, "ul", "ul"), tbl(bk, "ur", "ur")
+                    le = lt >> select(*[lt[n] for n in c["l"]])
+                    ri = rt >> select(*[rt[n] for n in c["r"]])
+                    u = le >> union(ri, distinct=c["distinct"])
+                    df = u >> export(pdt.Polars())
+                    rec["names"] = list(df.columns)
+                    rec["out"] = [list(x) for x in df.rows()]
+            except Exception as e:  # noqa: BLE001
+                rec["err"] = type(e).__name__
+                rec["msg"] = str(e)[:160].split("\n")[0]
+            out.append(rec)
+    return out
+
+
+def phase_argspace(ctx, phase):
+    """slice_head chains (numbers) and unions (name sets) over their whole small argument space (MC_ArgSpace.tla)"""
+    ns, ks, sizes = phase.get("ns", [0, 1, 2, 4]), phase.get("ks", [0, 1, 2, 5]), phase.get("sizes", [0, 3, 5])
+    ucols = phase.get("ucols", ["a", "b", "c"])
+    verbs = phase.get("verbs", ["slices", "union"])
+    d = tlc.prepare(f"{ctx.prop}-argspace-{os.getpid()}", ctx.seed)
+    common = (f"NsDef == {{{', '.join(map(str, ns))}}}\nKsDef == {{{', '.join(map(str, ks))}}}\nSizesDef == {{{', '.join(map(str, sizes))}}}\n"
+              f"UColsDef == {tlc.tla_lit(ucols)}\n")
+
+    def write(mode):
+        with open(os.path.join(d, "Run.tla"), "w") as f:
+            f.write("---- MODULE Run ----\nEXTENDS MC_ArgSpace\n" + common + "====\n")
+        with open(os.path.join(d, "Run.cfg"), "w") as f:
+            f.write(f'CONSTANTS\n  Mode = "{mode}"\n  Ns <- NsDef\n  Ks <- KsDef\n  Sizes <- SizesDef\n  UCols <- UColsDef\nINIT Init\nNEXT Next\nCHECK_DEADLOCK FALSE\n')
+
+    write("gen")
+    cfgs = []
+    tlc.run(d, workers=1, timeout=600, on_json=lambda c: cfgs.append(c) if c["verb"] in verbs else None)
+    n = 16
+    futs = [ctx.get_pool().submit(_argspace_exec, (ucols, sizes, cfgs[w::n])) for w in range(n)]
+    recs = [r for fu in futs for r in fu.result()]
+    path = os.path.join(d, "argspace.ndjson")
+    with open(path, "w") as f:
+        for r in recs:
+            f.write(json.dumps(dict(c=r["c"], out=r["out"], names=r["names"], err=r["err"])) + "\n")
+    write("check")
+    verdicts = []
+    tlc.run(d, workers=1, timeout=900, on_json=verdicts.append, extra_env=dict(VERIF_ARGSPACE=path))
+    if len(verdicts) != len(recs):
+        raise tlc.TlcError(f"MC_ArgSpace judged {len(verdicts)} of {len(recs)} recorded calls")
+    counts = {}
+    for v in verdicts:
+        r = recs[v["i"] - 1]
+        c = r["c"]
+        counts.setdefault(c["verb"], {}).setdefault(v["verdict"], 0)
+        counts[c["verb"]][v["verdict"]] += 1
+        if v["verdict"] != "ok":
+            clause = "rows" if v["verdict"] == "rows" else ("names" if v["verdict"] == "names" else "export-error" if v["verdict"] == "unexpected-error" else "errclass")
+            what = (f"{c['size']} rows, arrange(rid) >> " + (" >> alias() >> " if c["alias"] else " >> ").join(f"slice_head({n}, offset={k})" for n, k in c["args"])
+                    if c["verb"] == "slices" else f"select{c['l']} >> union(select{c['r']}, distinct={c['distinct']})")
+            ctx.failures.append(dict(clause=clause, backend=r["backend"], step=0, tainted=False, src=["argspace"], srcidx=0, exc=r["err"] or None,
+                                     detail=f"{c['verb']}: {v['verdict']}: {what} -> {r['names']} {r['out']} {r['err']} {r.get('msg', '')}",
+                                     moves=[dict(v="slice_head" if c["verb"] == "slices" else "union", i=1)], heap_obs=[], beh=r))
+    ctx.extra["arg_space"] = dict(configurations=len(cfgs), executions=len(recs), verdicts=counts,
+                                  universe=dict(n=ns, offset=ks, table_sizes=sizes, union_columns=ucols))
+    ctx.behaviours += len(recs)
+    ctx.replay_stats["steps_new"] = ctx.replay_stats.get("steps_new", 0) + len(recs)
+    ctx.replay_stats["nontrivial"] = ctx.replay_stats.get("nontrivial", 0) + len(recs)
+    ctx.tlc_runs.append(dict(profile="arg-space", states=0, distinct=0, configurations=len(cfgs), mode="TLC enumerates configurations, then judges the recorded outcomes"))
+    return d
